@@ -767,6 +767,20 @@ def run(ctx):
                     if st["a"] == "fb" and rng.random() < 0.6:
                         st["pair"] = True
                 rs.append(sc)
+    # an RTP write that is still inside the transport (back pressure) while feedback keeps arriving: feeding feedback,
+    # the getters and Close must not wait for it
+    for pc in ("noop", "rec", "leaky"):
+        for fbk in FBS:
+            steps = []
+            for _ in range(2):        # paced rounds: the published value moves
+                steps += [{"a": "send", "n": 10, "gap": 5500, "size": 1000}, {"a": "fb", "pat": "inc", "loss": 0}, {"a": "get"},
+                          {"a": "sleep", "ms": 205}]
+            steps += [{"a": "send", "n": 9, "gap": 5500, "size": 1000}, {"a": "sendheld"},     # the last packet of the round stays in the transport
+                      {"a": "fb", "pat": "inc", "loss": rng.choice([0, 50])}, {"a": "sleep", "ms": 100}, {"a": "get"}, {"a": "stats"},
+                      {"a": "sleep", "ms": 205}, {"a": "fb", "pat": "inc", "loss": 0}, {"a": "get"},
+                      {"a": "release"}, {"a": "send", "n": 5, "gap": 1000, "size": 1000}, {"a": "fb", "pat": "inc", "loss": 0},
+                      {"a": "quiesce"}, {"a": "close"}]
+            rs.append(mk_script("bwe", rng.choice([0, 3]), pc, fbk, steps))
     if quick:   # a few loss scripts also in the quick tier (about 1.2 s each, run in parallel with the others)
         rs += [loss_script(rng, c, rng.choice(PACERS[:3]), f) for c in (1, 3, 0, 4, 5) for f in FBS]
     run_batch(ctx, rs, "T-random", par=16)
